@@ -82,7 +82,7 @@ theorem methods_exact (reg : Registry) (i : IfaceIn) :
     (ifaceData reg i).2.methods.map (·.name) = i.methods.map (·.name) := by
   unfold ifaceData
   simp only [List.map_map]
-  have := foldl_append_map (σ := Registry) (fun r m => (methodData r m |>.1, (m.name, (methodData r m).2)))
+  have := foldl_append_map (σ := Registry) (fun r m => (methodData r (i.typeParams.map (·.1)) m |>.1, (m.name, (methodData r (i.typeParams.map (·.1)) m).2)))
     (fun (x : String × (Scope × List VarOut × Nat)) => x.1) (fun (m : MethodIn) => m.name)
     (by intro s a; rfl) i.methods reg []
   simp only [List.map_nil, List.nil_append] at this
@@ -95,14 +95,14 @@ theorem methods_exact (reg : Registry) (i : IfaceIn) :
 /-- **identical parameter types, variadic-ness and result types**: the record of a method has as many
 parameters and results as the source method, in order; each is printed from the source type (or its
 configured replacement), only the last parameter of a variadic method is flagged variadic. -/
-theorem signature_exact (reg : Registry) (m : MethodIn) :
-    let o := finishMethod m.name (methodData reg m).2
+theorem signature_exact (reg : Registry) (tps : List String) (m : MethodIn) :
+    let o := finishMethod m.name (methodData reg tps m).2
     o.name = m.name ∧ o.params.length = m.params.length ∧ o.results.length = m.results.length ∧
     Pointwise VarMatches (o.params ++ o.results) (paramsFlagged m ++ m.results.map (fun v => (v, false))) := by
-  obtain ⟨hnp, hf⟩ := methodData_vars reg m
+  obtain ⟨hnp, hf⟩ := methodData_vars reg tps m
   have hlen := hf.length_eq
   simp only [List.length_append, List.length_map, paramsFlagged_length] at hlen
-  generalize hmd : (methodData reg m).2 = x at *
+  generalize hmd : (methodData reg tps m).2 = x at *
   obtain ⟨scope, vars, np⟩ := x
   simp only at hnp hf hlen
   subst hnp
@@ -120,7 +120,7 @@ theorem emitted_type_reads_back (q inv : String → String) (t : GoType)
 example :
     let m : MethodIn := ⟨"Do", [⟨"ctx", .named "context" "context" "Context" .defined [] false false, none⟩,
       ⟨"xs", .slice (.basic "int"), none⟩], [⟨"", .basic "string", none⟩, ⟨"", .universe "error" .defined, none⟩], true⟩
-    let o := finishMethod m.name (methodData ({ dstPkgPath := "p", inPackage := false, imports := [] } : Registry) m).2
+    let o := finishMethod m.name (methodData ({ dstPkgPath := "p", inPackage := false, imports := [] } : Registry) ["T"] m).2
     (o.params.map (fun v => (v.typeString, v.variadic)), o.results.map (·.typeString)) =
       ([("context.Context", false), ("[]int", true)], ["string", "error"]) := by decide
 
